@@ -16,6 +16,32 @@ fn outside<CC>(m: &Map<CC>, bb: &Rectangle) -> Vec<(i32, i32)> {
     m.keys().filter(|k| !bb.contains(Point::new(k.0, k.1))).take(6).copied().collect()
 }
 
+/// dotted rectangles (the only primitive with a non-solid stroke style)
+fn check_dotted(case: &Styled2, obs: &mut Obs) {
+    let mut style = case.sty.build::<C>();
+    style.stroke_style = embedded_graphics::primitives::StrokeStyle::Dotted;
+    if let Shape::Rect { x, y, w, h } = &case.shape {
+        let s = mk_rect(*x, *y, *w, *h).into_styled(style);
+        let bb = s.bounding_box();
+        let mut a = RecD::<C>::new();
+        s.draw(&mut a).unwrap();
+        let mut b = RecN::<C>::new();
+        s.draw(&mut b).unwrap();
+        obs.outcome(&a.map);
+        obs.nontrivial_if(!a.map.is_empty());
+        obs.class("dotted-rectangle");
+        for (name, m) in [("draw-default", &a.map), ("draw-native", &b.map)] {
+            let o = outside(m, &bb);
+            if !o.is_empty() {
+                obs.fail("bounding-box-contains-drawn-pixels", format!("{name}: dotted rectangle bounding_box {:?} does not contain drawn {:?}", rt(&bb), o));
+            }
+            if style.is_transparent() && !m.is_empty() {
+                obs.fail("transparent-draws-nothing", format!("{name}: {} pixels", m.len()));
+            }
+        }
+    }
+}
+
 fn check_prim(case: &Styled2, obs: &mut Obs) {
     let sty = case.sty;
     with_styled!(&case.shape, sty.build::<C>(), C, |s| {
@@ -197,12 +223,29 @@ fn run_part(run: &mut Run) {
                 let st: Vec<Sty> = styles(tier.pick(5, 7)).into_iter().filter(|s| !s.fill || s.w <= 1).collect();
                 product(&sh, &st)
             }, check_prim);
+            run.sweep_vec("dotted-rectangles", "rectangles w,h in 0..=14 x S(9) with StrokeStyle::Dotted", || {
+                let mut sh = vec![];
+                for w in 0..=14 {
+                    for h in 0..=14 {
+                        sh.push(Shape::Rect { x: -3, y: 2, w, h });
+                    }
+                }
+                sh.push(Shape::Rect { x: 0, y: 0, w: 41, h: 17 });
+                sh.push(Shape::Rect { x: 0, y: 0, w: 12, h: 40 });
+                product(&sh, &styles(9))
+            }, check_dotted);
             run.sweep_vec("images", "images 4 raw widths x sizes x sub-image areas (inside, overlapping, outside, zero-sized, nested) x Image::new/with_center", || image_cases(tier), check_img);
         }
         "angles-fixed-point" => {
             run.sweep_vec("arcs-sectors-fixed-point", "arcs and sectors of the catalogue x S(W) in the fixed_point build", || product(&angle_shapes((-2, -3)), &styles(w)), check_prim);
         }
         "text" => {
+            run.sweep_vec("text-custom-fonts", "three synthetic fonts with character spacing x 7 strings x 16 colour/decoration sets x 4 baselines x 3 alignments x 2 line heights", || {
+                // beyond the statement's quantifier (built-in fonts have no spacing).  Excluded: text with neither text nor
+                // background colour, whose decorations span the advance width incl. the trailing spacing — behaviour pinned by
+                // the repository's own test transparent_text_dimensions_one_line_spaced, not a defect (DESIGN.md section 7)
+                text_catalogue_named(&CUSTOM_FONTS, &CUSTOM_STRINGS, &[(1, 100), (0, 3)], (-5, 7)).into_iter().filter(|t| t.text_color || t.bg).collect()
+            }, check_text);
             run.sweep_vec("text", "built-in fonts (quick: 3 sizes x 14 subsets fully + all 292 fonts with one string; thorough: all 292 fully) x strings x {text,background,underline,strikethrough} x 4 baselines x 3 alignments x 4 line heights",
                 || text_cases(tier), check_text);
         }
@@ -218,7 +261,7 @@ fn main() {
         assumptions: &["bounded to the listed catalogue; all 292 built-in fonts are covered (in quick with a reduced string/decoration product)", "only containment, not tightness, is asserted"],
         parts: |_| vec![PartSpec::new("shapes", "verif"), PartSpec::new("text", "verif"), PartSpec::new("angles-fixed-point", "verif_fp")],
         run_part,
-        required_classes: |_| vec!["rect", "circle", "ellipse", "rrect", "triangle", "line", "arc", "sector", "polyline", "transparent", "thick-stroke", "outside-stroke", "image", "sub-image", "sub-sub-image", "text", "text-transparent", "text-underline", "text-strikethrough", "text-background", "text-3-lines", "text-aligned"],
+        required_classes: |_| vec!["rect", "circle", "ellipse", "rrect", "triangle", "line", "arc", "sector", "polyline", "transparent", "thick-stroke", "outside-stroke", "image", "sub-image", "sub-sub-image", "text", "text-transparent", "text-underline", "text-strikethrough", "text-background", "text-3-lines", "text-aligned", "dotted-rectangle"],
         crash_is_verdict: false,
     })
 }
